@@ -157,6 +157,27 @@ def apply_layout(params, rec, t, *extra):
 	return params, v, base
 
 
+def reindex(df, *key):
+	"""The same rows in the same order under other index labels, as a frame
+	looks after sort_values / sample / boolean filtering without
+	reset_index: a third of the calls keep the default RangeIndex, a third
+	get a permutation of 0..n-1 as labels (positions and labels disagree),
+	a third get labels starting at 1000 with gaps."""
+	r = pyrng("reindex", *[repr(k) for k in key])
+	mode = r.randrange(3)
+	n = len(df)
+	if mode == 0 or n == 0:
+		return df
+	df = df.copy()
+	if mode == 1:
+		lab = list(range(n))
+		r.shuffle(lab)
+	else:
+		lab = [1000 + 3 * i for i in range(n)]
+	df.index = lab
+	return df
+
+
 class Immutable:
 	"""Immutability monitor: byte snapshots of caller-owned tensors before a
 	call, compared after return *or* raise."""
